@@ -187,6 +187,14 @@ def add_fanout(rng, prog):
     return prog
 
 
+def add_oneshot_simlisteners(rng, prog):
+    """listeners on the simulator's warm-up notification, subscribed in construct_model BEFORE the statistics are
+    created, that unsubscribe themselves inside the notification (no draws: usable without streams)"""
+    prog["simlisteners"] = prog.get("simlisteners", []) + [{"name": f"OS{k}", "type": "WARMUP_EVENT", "script": [["unsub", 1]]}
+                                                          for k in range(rng.randint(1, 2))]
+    return prog
+
+
 def add_simlisteners(rng, prog, types=("WARMUP_EVENT", "TIME_CHANGED_EVENT")):
     """listeners the model subscribes to the simulator's own notifications in construct_model; they draw from the
     model's streams (and the warm-up / start ones may schedule events)"""
